@@ -124,7 +124,7 @@ def t_reparam(E):
             KY.independent(E.I, kk, used[0]))
     u = E.method(E.new(P + ":Uniform"), "before_tail_call", k, ())
     E.prove("C29.Uniform.no_parameter_dependence", E.eq(real_of(E, u.fields["tangent"]), 0.0))
-    E.refutable("adev.reparam_tailcall", E.eq(bt, dmu))
+    E.refutable("adev.reparam_tailcall", E.eq(mu, sg))        # (a canary no code under check can make true)
 
 
 @task("adev.mv_normal_reparam", props=["C29"], functions=[P + ":MvNormalREPARAM.before_tail_call"])
